@@ -78,7 +78,9 @@ impl<W: AsyncWrite> AsyncWrite for BufWriter<W> {
             })
             .expect("Closure always return Ok");
 
-        (_, buf) = buf_try!(self.flush_if_needed().await, buf);
+        // The bytes are accepted: a failing eager flush must not turn this into an error (the
+        // caller would write them again). The data stays buffered and the next call retries.
+        let _ = self.flush_if_needed().await;
 
         BufResult(Ok(written), buf)
     }
@@ -104,7 +106,9 @@ impl<W: AsyncWrite> AsyncWrite for BufWriter<W> {
             })
             .expect("Closure always return Ok");
 
-        (_, buf) = buf_try!(self.flush_if_needed().await, buf);
+        // The bytes are accepted: a failing eager flush must not turn this into an error (the
+        // caller would write them again). The data stays buffered and the next call retries.
+        let _ = self.flush_if_needed().await;
 
         BufResult(Ok(written), buf)
     }
